@@ -153,7 +153,13 @@ impl System for Sys {
                     let post = obs_full(&st.vt);
                     let both_1049 = e.by_1049 && mode_of(&op.cmd) == Some((false, 1049));
                     if !e.resized {
-                        if post.rows != e.pre.rows {
+                        // (with a scrollback limit, rows that were waiting to be trimmed when the
+                        // screen was left - input that came through feed(), which never trims - go
+                        // when it is shown again: the top of lines() may have been cut, no more)
+                        let cut = cfg.limit.is_some() && post.rows.len() < e.pre.rows.len() && post.rows.len() >= post.size.1 && e.pre.rows.ends_with(&post.rows);
+                        if cut {
+                            out.count("exits_with_delayed_trim");
+                        } else if post.rows != e.pre.rows {
                             out.violate(
                                 "C16",
                                 "primary-unchanged-after-excursion",
@@ -161,7 +167,7 @@ impl System for Sys {
                             );
                             return;
                         }
-                        if st.vt.text() != e.pre_text {
+                        if !cut && st.vt.text() != e.pre_text {
                             out.violate("C16", "text-unchanged-after-excursion", format!("{:?} -> {:?}", e.pre_text, st.vt.text()));
                             return;
                         }
@@ -317,6 +323,10 @@ fn alpha_core(cfg: &Cfg) -> Vec<Op> {
         c(Cup(Some(1), Some(cols))),
         c(Cup(Some(2), Some(1))),
         c(sgr1(41)),
+        // input that arrives through feed() (which reports nothing and never trims the primary)
+        c(lfs(4)).kind(Kind::FeedChars),
+        c(DecSet(vec![1049])).kind(Kind::FeedChars),
+        c(DecRst(vec![1049])).kind(Kind::FeedChars),
     ]
 }
 
@@ -325,11 +335,11 @@ fn core_part(tier: Tier) -> Part<'static, Sys> {
         name: "excursions-core-deep",
         sys: &Sys,
         cfgs: match tier {
-            Tier::Quick => cfgs(&[(3, 2)], &[None]),
-            Tier::Thorough => cfgs(&[(3, 2), (4, 3), (2, 2)], &[None, Some(0), Some(2)]),
+            Tier::Quick => cfgs(&[(3, 2)], &[None, Some(1)]),
+            Tier::Thorough => cfgs(&[(3, 2), (4, 3), (2, 2)], &[None, Some(0), Some(1), Some(2)]),
         },
         alphabet: &alpha_core,
-        depth: tier.pick(8, 10),
+        depth: tier.pick(7, 9),
         seconds: tier.pick(20.0, 1800.0),
         validated: true,
         nontrivial: Some("calls_on_alternate_screen"),
